@@ -144,6 +144,36 @@ class Lits:
 
 
 # ====================================================================== R-CONST
+def bind_term(t, env):
+    """replace the given sub-terms (a parameter by the literal it is simulated with)"""
+    if t in env:
+        return env[t]
+    if not isinstance(t, tuple):
+        return t
+    return tuple(bind_term(x, env) if isinstance(x, tuple) else x for x in t)
+
+
+def fold_int(t):
+    """integer value of a term built from literals by + − × (checked operations included), else None"""
+    t = strip(t)
+    if t[0] == "const" and isinstance(t[1], dict) and "int" in t[1]:
+        try:
+            return int(t[1]["int"])
+        except (TypeError, ValueError):
+            return None
+    if t[0] == "field" and t[2] == 0:
+        return fold_int(t[1])           # `.0` of a checked operation's (value, overflowed) pair
+    if t[0] == "cast":
+        return fold_int(t[-1])
+    if t[0] == "binop":
+        a, b = fold_int(t[2]), fold_int(t[3])
+        if a is None or b is None:
+            return None
+        op = t[1].replace("WithOverflow", "").replace("Unchecked", "")
+        return {"Add": a + b, "Sub": a - b, "Mul": a * b}.get(op)
+    return None
+
+
 def const_int_of(F, t):
     """integer value of a term that is a literal or a `const` item of integer type, else None"""
     t = strip(t)
@@ -520,6 +550,13 @@ class FrobEval:
             return (self.fq2_of(body, t[3][0], inp2), self.fq2_of(body, t[3][1], inp2))
         if t[0] == "call":
             n, a = t[1].name, t[2]
+            if n == "new" and len(a) == 2 and t[1].d.startswith("crate::fields::fq4::Fq4"):
+                # the constructor instead of a struct literal (R-TOWER-CONST: new(a, b) stores (c0 = a, c1 = b))
+                inp2 = {}
+                for base, (l0, l1) in inp4.items():
+                    inp2[("field", base, 0)] = l0
+                    inp2[("field", base, 1)] = l1
+                return (self.fq2_of(body, a[0], inp2), self.fq2_of(body, a[1], inp2))
             if n == "unitary_inverse" and "Fq4" in t[1].i:
                 c0, c1 = self.fq4_of(body, a[0], inp4)
                 return (c0, Lin(c1.src, c1.conj, (-c1.k) % q))
@@ -540,10 +577,10 @@ class FrobEval:
                     if pw[2] not in names:
                         raise FactsError("Fq4::frobenius_map with an unknown selector")
                     sub = self.fq4_arm(("variant", names.index(pw[2])))
-                elif pw[0] != "const" or "int" not in pw[1]:
+                elif fold_int(pw) is None:
                     raise FactsError("Fq4::frobenius_map with a non-literal power")
                 else:
-                    sub = self.fq4_arm(int(pw[1]["int"]))
+                    sub = self.fq4_arm(fold_int(pw))
                 c0, c1 = self.fq4_of(body, a[0], inp4)
                 # compose: sub maps (A,B) -> (sub0 over A or B …): sub arms are diagonal (c0 from c0, c1 from c1)
                 def comp(s, v):
@@ -583,6 +620,14 @@ class FrobEval:
         if res.end != "return":
             raise FactsError("Fq12::frobenius_map(%d) does not return (%s)" % (power, res.end))
         v = paths.path_value(b, tb, res.blocks, 0)
+        for _ in range(3):
+            if strip(v)[0] == "call":
+                # the arm delegates to a helper of the same file (with the power passed on): its return term, power bound
+                e = expand_call(self.repo, strip(v), same_file(self.repo, b))
+                if e is None:
+                    break
+                v = e
+        v = bind_term(strip(v), {("param", 2): ("const", {"ty": "usize", "int": power})})
         if v[0] != "agg" or v[1] != "crate::fields::fq12::Fq12":
             raise FactsError("Fq12::frobenius_map(%d) is not an Fq12 literal" % power)
         base = ("init", ("deref", 1))
@@ -786,6 +831,55 @@ def rule_frobenius(prop, repo):
     return R.finish()
 
 
+def feasible_int_params(repo, b, bb, impl, depth=0):
+    """[{param index: value}] — the literal values the integer parameters of `b` can have when control is in block `bb`: for a
+    power dispatcher, the powers whose simulation passes through the block; for a helper, the arguments of its call sites (literals,
+    or the feasible values of the caller's own parameters passed on unchanged).  None when that cannot be enumerated."""
+    F = repo.F
+    if depth > 3:
+        return None
+    ins = b.rec.get("inputs") or []
+    ip = [i + 1 for i, t in enumerate(ins) if t.strip() in ("usize", "u32", "u64", "u8", "u16", "i32")]
+    if len(ip) != 1:
+        return None
+    k = ip[0]
+    tb = repo.tb(b)
+    if b.rec["path"] in impl:
+        out = []
+        for val in sorted(impl[b.rec["path"]]):
+            ev = paths.Evaluator({})
+            ev.intvals[("param", k)] = val
+            if bb in paths.simulate(b, tb, ev).blocks:
+                out.append({k: val})
+        return out
+    out = []
+    sites = 0
+    for cb in F.fn_bodies():
+        ctb = None
+        for cbb, t in cb.calls():
+            if (t.get("fn") or {}).get("res_def") != b.rec["path"]:
+                continue
+            sites += 1
+            ctb = ctb or repo.tb(cb)
+            a = strip(ctb.call_args(cbb)[k - 1])
+            v = fold_int(a)
+            if v is not None:
+                out.append({k: v})
+                continue
+            if a[0] == "param":
+                sub = feasible_int_params(repo, cb, cbb, impl, depth + 1)
+                if sub is None:
+                    return None
+                for env in sub:
+                    if a[1] in env:
+                        out.append({k: env[a[1]]})
+                    else:
+                        return None
+                continue
+            return None
+    return out if sites else None
+
+
 def rule_frob_dispatch(prop, repo):
     F = repo.F
     R = Rule("R-FROB-DISPATCH", "every call of a frobenius_map passes a literal power that has an implemented arm (no reachable unimplemented!())", floor=6, exhaustive=True)
@@ -813,6 +907,14 @@ def rule_frob_dispatch(prop, repo):
                 R.instance()
                 pw = strip(tb.call_args(bb)[1])
                 ok = pw[0] == "const" and "int" in pw[1] and int(pw[1]["int"]) in impl[d]
+                if not ok and fold_int(pw) is not None:
+                    ok = fold_int(pw) in impl[d]
+                if not ok and pw[0] != "const":
+                    # a power computed from the function's own integer parameters: every value those parameters can have here
+                    vals = feasible_int_params(repo, b, bb, impl)
+                    if vals is not None and vals:
+                        res_ = [fold_int(bind_term(pw, {("param", k): ("const", {"ty": "usize", "int": v}) for k, v in env.items()})) for env in vals]
+                        ok = all(r_ is not None and r_ in impl[d] for r_ in res_)
                 if pw[0] == "agg" and isinstance(pw[1], str) and not pw[3] and pw[1] in F.adts:
                     # an enum selector: every variant either has an arm or the match is exhaustive by construction (rustc
                     # checked it); an arm that diverges shows up when the body is followed with that variant
